@@ -61,6 +61,7 @@ func vpFSReset() {
 	vpFSIno = 1
 	vpFSRoot = &vpNode{kind: vpKDir, perm: 0o755, children: map[string]*vpNode{}, ino: 1}
 	vpFSOps, vpFSCrashAt, vpFSFaultAt, vpFSTmpSeq = 0, -1, -1, 0
+	vpFSReads, vpFSReadFaultAt = 0, -1
 	vpFSOpen = map[*os.File]*vpOpenFile{}
 	vpFSLog = nil
 }
@@ -72,6 +73,22 @@ func vpNewNode(kind int, perm os.FileMode) *vpNode {
 		n.children = map[string]*vpNode{}
 	}
 	return n
+}
+
+// Read faults (off unless a harness sets vpFSReadFaultAt): the read operation
+// (lstat, open for reading, read, readlink) with this number fails with EIO.
+var vpFSReads, vpFSReadFaultAt = 0, -1
+
+func vpReadTick(op, path string) error {
+	if vpFSReadFaultAt < 0 {
+		return nil
+	}
+	k := vpFSReads
+	vpFSReads++
+	if k == vpFSReadFaultAt {
+		return &os.PathError{Op: op, Path: path, Err: syscall.EIO}
+	}
+	return nil
 }
 
 // vpTick marks one mutating filesystem operation (a crash / fault point).
@@ -198,6 +215,9 @@ func vpBase(p string) string {
 // ---- redirect targets: package os
 
 func vpLstat(name string) (os.FileInfo, error) {
+	if err := vpReadTick("lstat", name); err != nil {
+		return nil, err
+	}
 	_, _, n, err := vpWalkTo(name, false, 0)
 	if err != nil {
 		return nil, vpErr("lstat", name, err)
@@ -220,6 +240,9 @@ func vpStat(name string) (os.FileInfo, error) {
 }
 
 func vpReadlink(name string) (string, error) {
+	if err := vpReadTick("readlink", name); err != nil {
+		return "", err
+	}
 	_, _, n, err := vpWalkTo(name, false, 0)
 	if err != nil || n == nil {
 		return "", vpErr("readlink", name, os.ErrNotExist)
@@ -386,6 +409,11 @@ func vpChmod(name string, mode os.FileMode) error {
 }
 
 func vpOpenFileM(name string, flag int, perm os.FileMode) (*os.File, error) {
+	if flag&(os.O_WRONLY|os.O_RDWR|os.O_CREATE) == 0 {
+		if err := vpReadTick("open", name); err != nil {
+			return nil, err
+		}
+	}
 	parent, nm, n, err := vpWalkTo(name, true, 0)
 	if err != nil {
 		return nil, vpErr("open", name, err)
@@ -503,6 +531,9 @@ func vpFileRead(f *os.File, b []byte) (int, error) {
 	}
 	if of.pos >= len(of.node.data) {
 		return 0, io.EOF
+	}
+	if err := vpReadTick("read", of.name); err != nil {
+		return 0, err
 	}
 	n := copy(b, of.node.data[of.pos:])
 	of.pos += n
